@@ -755,25 +755,30 @@ pub fn fuzz_drive(h: fn(), needles: &[&str], tries: usize) {
                 }
             }
         } else {
-        match (k / 2) % 4 {
-            3 => {
-                if k % 16 < 8 {
-                    for b in bytes.iter_mut() {
-                        *b = rnd() as u8;
-                    }
-                } else {
+        match (k / 2) % 8 {
+            5 => {
+                for b in bytes.iter_mut() {
+                    *b = rnd() as u8;
+                }
+            }
+            6 | 7 => {
+                {
                     // small-value sparse: every byte independently non-zero with probability 1/den, values mostly below 8
                     // (indices, flags and kinds stay in range, bitboards stay sparse and mostly disjoint)
                     let den = [2u64, 3, 4, 6, 8, 12][(rnd() % 6) as usize];
                     for b in bytes.iter_mut() {
                         let r = rnd();
                         if r % den == 0 {
-                            *b = if (r >> 8) % 4 != 0 { ((r >> 16) % 8) as u8 } else { (r >> 16) as u8 };
+                            *b = match (r >> 8) % 4 {
+                                0 => (r >> 16) as u8,
+                                1 => 1u8 << ((r >> 16) % 8),
+                                _ => ((r >> 16) % 8) as u8,
+                            };
                         }
                     }
                 }
             }
-            2 => {
+            3 | 4 => {
                 let mut w = 0;
                 while w < 256 {
                     if rnd() % 8 == 0 {
